@@ -19,14 +19,13 @@ import copy
 import json
 import os
 import pickle
-import re
 import zlib
 from collections import OrderedDict
 
 import numpy as np
 
 import tlc
-from conf_browser import read_dump_fast, fast_state
+from conf_browser import read_dump_fast
 
 SPEC = os.path.join(tlc.SPECS, 'Observe.tla')
 IMPL = os.path.join(tlc.SPECS, 'ObserveImpl.tla')
